@@ -166,6 +166,8 @@ def evaluate(mod, scns):
         nq[ri] = nq.get(ri, 0) + 1
     for ri, rec in enumerate(out):
         rec["nspecs"] = nq.get(ri, 0)
+        if hasattr(mod, "direct_count"):
+            rec["nspecs"] += mod.direct_count(results[ri])
     return out
 
 
